@@ -86,7 +86,7 @@ func init() {
 		Technique:   "static analysis: assume/guarantee must-facts dataflow over go/cfg incl. a loop-all (back-edge) rule; argument-binding patterns",
 		Rules:       []string{"E1"},
 		Run: func(c *Ctx) {
-			RunE1(c, "C07", obs)
+			RunE1(c, "C07", append(append([]Ob{}, obs...), sharedObs["C07"]...))
 			RunCallers(c, "E1.refresh-lookup-table", "op.RefreshTokenRequestByRefreshToken", []string{"op.AuthorizeRefreshClient", "op.(*LegacyServer).RefreshToken"}, "refresh redemption sites")
 			RunCallers(c, "E1.scopes-table", "op.ValidateRefreshTokenScopes", []string{"op.ValidateRefreshTokenRequest", "op.(*LegacyServer).RefreshToken"}, "scope narrowing sites")
 		},
